@@ -176,8 +176,8 @@ def oracle(req, impl):
         return "the call did not return a value or an error value: " + impl[:80]
     r = parse_bisect(req)
     nums = (r.lo, r.init, r.hi)
-    if any(math.isnan(v) for v in nums):
-        return None
+    if any(math.isnan(v) or math.isinf(v) for v in nums):
+        return None       # non-finite bracket ends are outside the quantifier: only "no panic" (above) is demanded
     outside = r.init < r.lo or r.init > r.hi
     is_x = it[0] == "err" and it[1] == "XInitOutOfBounds"
     if outside and not is_x:
